@@ -51,6 +51,8 @@ BinNames  == AssignOps \cup {","} \cup {"and", "or"} \cup CmpOps
 PreNames  == {"not"}
 IncNames  == {"++", "--"}
 
+(* named constant sets: TLC evaluates a constant definition once, a set
+   expression written inside an operator on every call *)
 IncOrAssign == AssignOps \cup IncNames
 AndOr       == {"and", "or"}
 AddNames    == {"+", "-"}
